@@ -112,6 +112,7 @@ struct SpecEnc {
     // summary-versus-load comparison of C17, where any consistent reading of the field will do; the layouts expected by the
     // specification kinds stay within 0..32767 (the precondition of C01 / C03)
     bool wide_tags = false;
+    int repeated_snames = 0;
     int tagval() {
         if (wide_tags && g.chance(15)) return 32768 + (int)g.below(32768);
         return (int)g.below(200);
@@ -256,6 +257,16 @@ struct SpecEnc {
                 }
                 expect = save;
             }
+            if (c >= 2 && g.chance(35)) {
+                // a repeated SNAME followed by other names (and sometimes an unknown one): read_rawcells removes the repeat by moving
+                // the LAST dependency into its slot, so the dependency order is not the file order
+                std::string t0 = names[g.below(c)];
+                std::vector<std::string> seq = {t0, t0};
+                for (int k = 0; k < c; k++) if (names[k] != t0) seq.push_back(names[k]);
+                if (g.coin()) seq.insert(seq.begin() + 1 + (long)g.below(seq.size() - 1), "XMISSING");
+                for (auto& t : seq) { std::string save = expect; expect.clear(); sref(t); er += expect; expect = save; }
+                repeated_snames++;
+            }
             expect += ep + eh + er + et;
             rec(0x07, 0, {});
         }
@@ -299,9 +310,7 @@ static void info_case(Out& out, const char* kind, const std::string& path, const
     if (expect_tm) t = *expect_tm;
 
             std::string id = out.add(kind, hex_bytes(bytes.data(), bytes.size()));
-            // ONE summary object for the whole run, cleared between files the way a caller that scans many files uses it: clear()
-            // has to reset every counter and set, or the next summary is the sum of two files
-            static LibraryInfo info = {};
+            LibraryInfo info = {};
             ErrorCode err = gds_info(path.c_str(), info);
             std::string s = (int)err >= (int)ErrorCode::ChecksumError ? "ERR" : "OK";
             s += " " + num((int64_t)info.cell_names.count);
@@ -354,6 +363,28 @@ static void info_case(Out& out, const char* kind, const std::string& path, const
             full.free_all();
         }
 
+// what read_rawcells recorded: name table, byte ranges, resolved dependencies in array order (read_rawcells resolves in place and
+// removes repeated / unknown names with remove_unordered: swap with last)
+static std::string raw_dump(const std::string& path) {
+    return in_child([&](FILE* o2) {
+        ErrorCode err = ErrorCode::NoError;
+        Map<RawCell*> rc = read_rawcells(path.c_str(), &err);
+        if (err != ErrorCode::NoError && err != ErrorCode::MissingReference) { fprintf(o2, "ERR %d", (int)err); return; }
+        std::vector<std::string> lines;
+        for (MapItem<RawCell*>* it2 = rc.next(NULL); it2; it2 = rc.next(it2)) {
+            RawCell* r = it2->value;
+            std::string l = " K " + hexs(it2->key) + " " + hexs(r->name) + " " + std::to_string(r->offset) + " " + std::to_string(r->size) + " D";
+            for (uint64_t k = 0; k < r->dependencies.count; k++) l += " " + hexs(r->dependencies[k]->name);
+            lines.push_back(l);
+        }
+        std::sort(lines.begin(), lines.end());
+        std::string all = "RAW " + std::to_string(lines.size());
+        for (auto& l : lines) all += l;
+        all += std::string(" missing=") + (err == ErrorCode::MissingReference ? "1" : "0");
+        fputs(all.c_str(), o2);
+    }, 60);
+}
+
 int main(int argc, char** argv) {
     if (argc < 4) return 2;
     uint64_t seed = strtoull(argv[1], NULL, 10);
@@ -376,45 +407,6 @@ int main(int argc, char** argv) {
     Rng g(seed);
     tm t = fixed_tm();
     const std::string ts = "2020 6 17 11 22 33";
-    // strings that fill a record: 65527 .. 65529 bytes give STRING / STRNAME records of 65532 and 65534 bytes, the largest an
-    // even-length record can be (the readers' buffer holds 65537).  Decided on the implementation alone (the extracted models
-    // are list based and take minutes on such payloads): what was saved loads back, for a label text and for a cell name
-    if (want("rt")) {
-        for (int which = 0; which < 2; which++)
-            for (size_t len = 65527; len <= 65529; len++) {
-                std::string big(len, 'x');
-                for (size_t i = 0; i < big.size(); i += 97) big[i] = (char)('A' + (i / 97) % 26);
-                Library lib = {};
-                lib.init("BIG", 1.0, 1.0 / 1024);
-                Cell* cell = (Cell*)allocate_clear(sizeof(Cell));
-                cell->name = copy_string(which ? big.c_str() : "C", NULL);
-                Label* l = (Label*)allocate_clear(sizeof(Label));
-                l->init(which ? "t" : big.c_str());
-                l->magnification = 1;
-                cell->label_array.append(l);
-                lib.cell_array.append(cell);
-                std::string path = scratch + "/big.gds";
-                ErrorCode werr = lib.write_gds(path.c_str(), 0, &t);
-                ErrorCode rerr = ErrorCode::NoError;
-                Library back = read_gds(path.c_str(), 0, 1e-2, NULL, &rerr);
-                std::string verdict = "ok";
-                if (werr != ErrorCode::NoError) verdict = "FAIL gds-roundtrip write_gds refuses a string below 65530 bytes";
-                else if (rerr != ErrorCode::NoError || back.cell_array.count != 1 || back.cell_array[0]->label_array.count != 1)
-                    verdict = "FAIL gds-roundtrip a library holding a " + std::to_string(len) + "-byte " + (which ? "cell name" : "label text") + " does not load back (error code " + std::to_string((int)rerr) + ")";
-                else if (strcmp(which ? back.cell_array[0]->name : back.cell_array[0]->label_array[0]->text, big.c_str()) != 0)
-                    verdict = "FAIL gds-roundtrip a record-filling string loads back changed";
-                LibraryInfo info = {};
-                ErrorCode ierr = gds_info(path.c_str(), info);
-                if (verdict == "ok" && (ierr != ErrorCode::NoError || info.cell_names.count != 1)) verdict = "FAIL gds_info-vs-load the summary refuses a file the full reader loads (record-filling string)";
-                info.clear();
-                std::string id = out.add("rt", "bigstring " + std::to_string(which) + " " + std::to_string(len));
-                out.I(id, "-");
-                out.P(id, verdict);
-                out.count("big-string");
-                back.free_all();
-                lib.free_all();
-            }
-    }
     int nlib = thorough ? 1500 : 120;
     for (int it = 0; it < nlib; it++) {
         GenOpts o;
@@ -430,7 +422,8 @@ int main(int argc, char** argv) {
             int nbig = thorough ? 8 : 4;
             int slot = thorough ? 40 : 20;
             if (it % slot == 5 && it / slot < nbig && lib.cell_array.count > 0) {
-                int n = thorough ? BIG[it / slot] : BIG[2 * (it / slot) + 1];
+                static const int QUICK[] = {8189, 8191, 16380, 16381};
+                int n = thorough ? BIG[it / slot] : QUICK[it / slot];
                 Polygon* bp = (Polygon*)allocate_clear(sizeof(Polygon));
                 bp->tag = make_tag((uint32_t)g.below(60), (uint32_t)g.below(60));
                 for (int i = 0; i < n - 1; i++) bp->point_array.append(Vec2{(double)(2 * i) * o.grid, (double)((i % 2) ? 3 + (i % 5) : 0) * o.grid});
@@ -647,26 +640,7 @@ int main(int argc, char** argv) {
             uint64_t mask = g.next();
             std::string id = out.add("raw", hex_u64(mask & 0xff) + " " + hex_bytes(bytes.data(), bytes.size()));
             // what read_rawcells recorded: name table, byte ranges, resolved dependencies (versus GdsRaw.read_rawcells_model)
-            out.I(id, in_child([&](FILE* o2) {
-                ErrorCode err = ErrorCode::NoError;
-                Map<RawCell*> rc = read_rawcells(path.c_str(), &err);
-                if (err != ErrorCode::NoError && err != ErrorCode::MissingReference) { fprintf(o2, "ERR %d", (int)err); return; }
-                std::vector<std::string> lines;
-                for (MapItem<RawCell*>* it2 = rc.next(NULL); it2; it2 = rc.next(it2)) {
-                    RawCell* r = it2->value;
-                    std::vector<std::string> deps;
-                    for (uint64_t k = 0; k < r->dependencies.count; k++) deps.push_back(hexs(r->dependencies[k]->name));
-                    std::sort(deps.begin(), deps.end());
-                    std::string l = " K " + hexs(it2->key) + " " + hexs(r->name) + " " + std::to_string(r->offset) + " " + std::to_string(r->size) + " D";
-                    for (auto& d : deps) l += " " + d;
-                    lines.push_back(l);
-                }
-                std::sort(lines.begin(), lines.end());
-                std::string all = "RAW " + std::to_string(lines.size());
-                for (auto& l : lines) all += l;
-                all += std::string(" missing=") + (err == ErrorCode::MissingReference ? "1" : "0");
-                fputs(all.c_str(), o2);
-            }, 60));
+            out.I(id, raw_dump(path));
             std::string r2 = in_child([&](FILE* o2) {
                 ErrorCode err = ErrorCode::NoError;
                 Map<RawCell*> rc = read_rawcells(path.c_str(), &err);
@@ -803,6 +777,66 @@ int main(int argc, char** argv) {
         std::string path = scratch + "/s.gds";
         write_file(path, e.b.data(), e.b.size());
         if (want("specinfo")) info_case(out, "specinfo", path, e.b, NULL);
+        // ---- raw on specification-level streams (repeated SNAMEs): read_rawcells versus GdsRaw.read_rawcells_model, dependency order included
+        if (want("raw") && e.repeated_snames > 0) {
+            std::string id = out.add("raw", "0 " + hex_bytes(e.b.data(), e.b.size()));
+            out.I(id, raw_dump(path));
+            out.count("raw-repeated-snames");
+        }
+        // ---- filter on specification-level streams with 16-bit tags >= 32768: read_gds keeps the sign-extended field in a uint32 half of
+        // the tag (0x8001 -> 4294934529) and the filter set compares those 32-bit values: a filter tag 32769 must NOT select it
+        if (want("filter") && e.wide_tags && it % 3 == 0) {
+            std::vector<Tag> present;
+            {
+                ErrorCode err = ErrorCode::NoError;
+                Library l0 = read_gds(path.c_str(), 0, 0, NULL, &err);
+                for (uint64_t i = 0; i < l0.cell_array.count; i++) {
+                    for (uint64_t j = 0; j < l0.cell_array[i]->polygon_array.count; j++) present.push_back(l0.cell_array[i]->polygon_array[j]->tag);
+                    for (uint64_t j = 0; j < l0.cell_array[i]->flexpath_array.count; j++) present.push_back(l0.cell_array[i]->flexpath_array[j]->elements[0].tag);
+                }
+                l0.free_all();
+            }
+            Set<Tag> tags = {};
+            std::string tagtxt;
+            int nt = 1 + (int)g.below(4);
+            for (int k = 0; k < nt; k++) {
+                Tag tg;
+                if (!present.empty() && g.chance(70)) {
+                    tg = present[g.below(present.size())];
+                    // the same 16-bit fields NOT sign-extended: what a caller thinking in 0..65535 would pass
+                    if (g.chance(30)) tg = make_tag(get_layer(tg) & 0xffff, get_type(tg) & 0xffff);
+                } else tg = make_tag((uint32_t)g.below(200), (uint32_t)g.below(200));
+                if (!tags.has_value(tg)) {
+                    tags.add(tg);
+                    tagtxt += (tagtxt.empty() ? "" : ",") + num(get_layer(tg)) + ":" + num(get_type(tg));
+                    if (get_layer(tg) > 32767 || get_type(tg) > 32767) out.count("filter-wide-tag");
+                }
+            }
+            std::string id = out.add("filter", tagtxt + " " + hex_bytes(e.b.data(), e.b.size()));
+            std::string fst;
+            std::string filtered = load_dump(path, 0, &tags, false, &fst);
+            out.I(id, fst == "ok" ? filtered : fst);
+            std::string r2 = in_child([&](FILE* o2) {
+                ErrorCode err = ErrorCode::NoError;
+                Library l2 = read_gds(path.c_str(), 0, 0, NULL, &err);
+                for (uint64_t i = 0; i < l2.cell_array.count; i++) {
+                    Cell* c = l2.cell_array[i];
+                    uint64_t w = 0;
+                    for (uint64_t j = 0; j < c->polygon_array.count; j++)
+                        if (tags.has_value(c->polygon_array[j]->tag)) c->polygon_array[w++] = c->polygon_array[j];
+                    c->polygon_array.count = w;
+                    w = 0;
+                    for (uint64_t j = 0; j < c->flexpath_array.count; j++)
+                        if (tags.has_value(c->flexpath_array[j]->elements[0].tag)) c->flexpath_array[w++] = c->flexpath_array[j];
+                    c->flexpath_array.count = w;
+                }
+                DumpCfg c3;
+                c3.factor = l2.precision / l2.unit;
+                fprintf(o2, "%s", dump_loaded(l2, c3).c_str());
+            }, 60);
+            out.P(id, (fst == "ok" && r2 == filtered) ? "ok" : "FAIL gds-filter-vs-discard filtered load differs from load-then-discard");
+            tags.clear();
+        }
         if (want("spec")) {
             std::string id = out.add("spec", hex_bytes(e.b.data(), e.b.size()));
             std::string st;
